@@ -24,7 +24,7 @@ Qed.
 
 Theorem accept_event_is_step s e s' : Inv s -> accept_event s e = inl s' -> exists o, fst (step true s o) = s'.
 Proof.
-  intros H. destruct e as [cs exc|all k exc r|d c|rows pay|m]; cbn [accept_event].
+  intros H. destruct e as [cs exc|all k exc r|d c|rows pay|m|g]; cbn [accept_event].
   - destruct (step true s (Submit cs)) as [s1 o] eqn:E. intros A. exists (Submit cs). rewrite E. cbn [fst].
     destruct o; try discriminate; destruct exc as [|[|?]]; try discriminate; injection A as <-; reflexivity.
   - set (ids := map (fun x => fst (fst x)) r).
@@ -46,6 +46,7 @@ Proof.
       intros A; injection A as <-. exists (Close d). cbn [step]. apply negb_false_iff in Eo. rewrite Eo. reflexivity.
   - destruct (same_rows rows (done_q s) && payload_ok s pay); [|discriminate]. intros A; injection A as <-. exists Dump. reflexivity.
   - intros A; injection A as <-. exists (SetMax m). reflexivity.
+  - destruct (subsetn g (tasks s)); [|discriminate]. intros A; injection A as <-. exists (Tick g). reflexivity.
 Qed.
 
 Lemma run_snoc ops o : run true (ops ++ [o]) = fst (step true (run true ops) o).
